@@ -12,7 +12,15 @@ def tweak(world, rng):
     if not ents:
         return world
     nodes = {n["p"]: n for n in world["nodes"]}
-    for e in ents:
+    has_dup = any(e.get("dup") for e in ents)
+    if has_dup:
+        # keep the second generation as the only thing in the way: drop pre-existing destinations
+        for e in ents:
+            for p in [q for q in nodes if q == e["loc"] or q.startswith(e["loc"] + b"/")]:
+                del nodes[p]
+            e.pop("dest", None)
+        world["opts"]["overwrite"] = False
+    for e in ([] if has_dup else ents):
         if e["loc"] in nodes or rng.random() < 0.4:
             continue
         kind = rng.choice(["file", "dir", "link-file", "link-dir", "link-dangling"])
@@ -42,6 +50,23 @@ def tweak(world, rng):
     world["opts"]["path"] = b"/"
     world["opts"].pop("trashDir", None)
     world["stdin"] = rng.choice([b"0", b"1", b"0,1", b"0-1", b"1,0", b"0-2", b"2"]) + b"\n"
+    if any(e.get("dup") for e in ents) and rng.random() < 0.7:
+        # select everything that is offered: both generations of a twice-trashed location are in the selection
+        uid = world["uid"]
+        k = 0
+        for e in ents:
+            t = e["tdir"]
+            parent = os.path.dirname(t)
+            if os.path.basename(parent) == b".Trash":
+                n = nodes.get(parent)
+                ok = n is not None and n["k"] == "d" and n.get("mode", 0) & 0o1000
+            elif b"real-trash" in t:
+                ok = False
+            else:
+                ok = True
+            k += 1 if ok else 0
+        if k >= 2:
+            world["stdin"] = b"0-%d\n" % (k - 1)
     world["argv"] = cmd_argv(world)
     return world
 
